@@ -66,9 +66,12 @@ AReqMatch(cmd, f) == f.what = "req" /\ f.of = cmd
 ATxId(cmd, f) == IF Kind = "tcp" THEN f.x ELSE -1
 \* the exact remainder completes its own head; without a checksum (tcp) any piece of the
 \* right length does
+\* (the wire protocols carry no correlation id and the answers the peer gives to different requests of a behaviour
+\* differ only behind the split point: the exact remainder of ANOTHER answer, arriving late, completes a head to that
+\* other answer, checksum and all - g.of need not be h.of.  Found as conformance drift in deep simulated behaviours.)
 ACompletes(cmd, h, g) ==
     /\ h.what = "head"
-    /\ \/ g.what = "tail" /\ g.of = h.of
+    /\ \/ g.what = "tail"
        \/ Kind = "tcp" /\ g.what \in {"tail", "tailc"}
 AIsData(d, fs) == d.what = "data" /\ d.x = fs
 AWF(cmd, d) == /\ d.what = "data"
